@@ -122,18 +122,15 @@ class C05(ParseProp):
                 newf = None if op[1] == 'none' else op[1]
                 # known class: the real lexer has eagerly skipped tokens (it was "behind": nothing delivered since
                 # the start / the last sub-lex mark) that the new filter would keep
-                if not state['delivered']:
-                    j = ref.first()
-                    upto = j if j is not None else len(ref.toks)
-                    if any(lexsim.keeps(newf, ref.toks[x]['kind']) for x in range(ref.i, upto)):
-                        state['known'][0] = True
-                ref.flt = newf
+                ref.set_filter(newf)
             elif name in ('sublex', 'intosub'):
                 state['delivered'] = False
+                ref.sublex()
             elif name == 'query':
                 pass
             elif name == 'emptyf':
                 # is_empty_with_filter may say 'empty' only when nothing is deliverable (it looks ahead like peek)
+                ref.buffer_next()
                 if o['res'] == 'T' and ref.peek() is not None:
                     fails.append((where, 'is_empty_with_filter returned true although %s is still deliverable' % ref.peek()['tok'])); raise StopIteration
             elif name == 'drain':
@@ -158,17 +155,21 @@ class C05(ParseProp):
         if any(b[0] in ('metrics', 'le', 'tab') for b in c['build'][1:]) and any(b[0] == 'filter' for b in c['build']):
             pass
         toks = lexsim.scan_all(c['text'], le, tab, c['scanner'])
-        ref = lexsim.RefLexer(toks, 0, flt)
+        met = [False]
+        ref = lexsim.SkipLexer(toks, None, met)
+        for b in c['build']:
+            if b[0] == 'filter':                          # Lexer::with_filter(f): set_filter + buffer_next, in builder order
+                ref.set_filter(None if b[1] == 'none' else b[1]); ref.buffer_next()
         fails = []
-        known = [False]
         try:
-            self.replay(ref, c['ops'], it[2:], None, fails, {'delivered': False, 'known': known})
+            self.replay(ref, c['ops'], it[2:], None, fails, {'delivered': False})
         except StopIteration:
             pass
-        if known[0]:
-            # the history contains a filter change while filtered tokens had been skipped eagerly
-            # (nothing delivered since the start / the last sub-lex mark): recorded finding
-            fails = [(p, '[eager-skip] ' + w) for p, w in fails]
+        if met[0]:
+            # a token that a filter change made deliverable again had been skipped eagerly (nothing delivered since the
+            # start / the last sub-lex mark) and the advance-only lexer would have delivered it: the recorded finding. The
+            # reference passed over exactly those tokens; every other difference is reported as usual.
+            fails = fails + [(None, '[eager-skip] a token skipped eagerly before a filter change is never delivered although the new filter keeps it')]
         return fails
 
     def classify(self, ct, f):
